@@ -16,6 +16,7 @@ func FuzzPipeline(f *testing.F) {
 	f.Add(`query Q($v: int64 = 1, $b: bool) { allO1 { id @skip(if: $b) f1 { id } ...F } allU1 { __typename ... on O1 { id } ... on O2 { label } } } fragment F on O1 { name @include(if: true) }`, `{"v": 2, "b": false}`)
 	f.Add(`mutation M { bump(typ: "O1", id: 1) }`, `null`)
 	f.Add(`{ ... { __typename } ...on Query @skip { __typename } }`, `{"x": [1, {"a": null}]}`)
+	f.Add("{A(A:[[\x16", `0`)
 	f.Add(bomb("spread", 6), `{}`)
 	f.Add(bomb("union-spread", 4), `{}`)
 	f.Add(`subscription S { allO1 { id } } type Foo { a: Int } fragment A on O1 { ...B } fragment B on O1 { ...A }`, `{}`)
